@@ -256,7 +256,8 @@ fn main() {
             ctx.finish_replay(catch(|| drain_case(&i)).unwrap_or_else(|p| Some(("panic".into(), p))).map(|e| e.1));
         }
         let acts: Vec<Act> = v["actions"].as_array().map(|a| a.iter().filter_map(|x| Act::parse(x.as_str()?)).collect()).unwrap_or_default();
-        ctx.finish_replay(match catch(|| run_history(&i, &acts, 0)) {
+        let src_len = v["src_len"].as_u64().map(|x| x as usize).unwrap_or(i.src as usize);
+        ctx.finish_replay(match catch(|| run_history_src(&i, &acts, 0, src_len)) {
             Ok(Ok(_)) => None,
             Ok(Err(e)) => Some(format!("{}: {}", e.0, e.1)),
             Err(p) => Some(format!("panic: {p}")),
@@ -320,9 +321,31 @@ fn main() {
         })
         .collect();
     let uniq: usize = res.iter().map(|r| r.0).sum();
+    // big-capacity probes: every residual fill level r of a large ring, short structured histories
+    let mut big_hist = 0u64;
+    for cap in [32u8, 33, 48, 64, 65, 96, 128, 255] {
+        for r in 0..=cap {
+            let i = Init { cap, start: cap - 1, len: r, src: 0 };
+            for pre in [0usize, 1, 2] {
+                for k in [0u8, 1, 2, 3, cap] {
+                    let mut acts = vec![Act::Next; pre];
+                    acts.extend([Act::Frames(k), Act::Next, Act::Exhausted, Act::Frames(1), Act::Exhausted]);
+                    big_hist += 1;
+                    if let Err((key, m)) = run_history_src(&i, &acts, 0, 3 * cap as usize + 7) {
+                        let mut cj = case_json(&i, &acts);
+                        cj["src_len"] = json!(3 * cap as usize + 7);
+                        ctx.violation(&key, cj, m, None);
+                    }
+                }
+            }
+        }
+    }
+    ctx.add_evals(big_hist);
+    ctx.set("big_capacity_histories", json!(big_hist));
+    ctx.rule("big-capacity probes: capacities 32, 33, 48, 64, 65, 96, 128, 255 x every residual fill level 0..=cap x 0..2 leading next() calls x a batch of 0,1,2,3 or cap frames, then next / is_exhausted / a batch of 1: same stream, pull and exhaustion oracle");
     // soak probes: one long deterministic history per capacity on a single Buffered over a long source
     let soak_steps = ctx.tier.pick(20_000usize, 200_000);
-    for cap in [1u8, 2, 3, 5, 8, 64] {
+    for cap in [1u8, 2, 3, 5, 8, 48, 64] {
         let i = Init { cap, start: cap - 1, len: cap / 2, src: 0 };
         guard::enter(&json!({"sys":"buffered_soak","cap":cap,"steps":soak_steps}).to_string());
         let alpha = alphabet(cap);
